@@ -1,4 +1,5 @@
 import LentilVerif.Model.Basic
+import LentilVerif.Gen.Units
 /-! Executable model of the detector chain of `lentil/detector.py` (`collect_charge`, `collect_charge_bayer`, `qe_asarray`,
 `format_bayer_string`, `adc`), generic in the value type `K`. Instantiated at core `Rat` by the driver
 (`Driver/Ops/C16.lean`, exact arithmetic on dyadic test data) and at an arbitrary ordered field with a floor in
@@ -39,18 +40,51 @@ inductive QE (K : Type) where
   | scalar (q : K)
   | vector (size : Nat) (v : Nat → K)
   | spectrum (s : Nat → K)
+  /-- a `Spectrum` object: grid points (wavelength, value) in unit `su`, sampled at the call's wavelengths `wave l` in unit `wu` -/
+  | spectrumObj (grid : List (K × K)) (su : Gen.WUnit) (wave : Nat → K) (wu : Gen.WUnit)
+
+/-- piecewise-linear interpolation through the points `(x, v)` (ascending `x`), 0 outside the covered range:
+`scipy.interpolate.interp1d(x, v, kind='linear', bounds_error=False, fill_value=0)` -/
+def interpLin [LE K] [DecidableLE K] [Zero K] [Add K] [Sub K] [Mul K] [Div K] : List (K × K) → K → K
+  | (x0, v0) :: (x1, v1) :: rest, w =>
+      if x0 ≤ w ∧ w ≤ x1 then v0 + (v1 - v0) * (w - x0) / (x1 - x0) else interpLin ((x1, v1) :: rest) w
+  | _, _ => 0
+
+/-- `Spectrum.sample(w, waveunit=wu)` of a unit-less-valued spectrum given on `grid` in wavelength unit `su`: the spectrum is
+converted to `wu` (wavelengths multiplied by the regenerated factor `Gen.waveTo su wu`, values unchanged) and interpolated linearly -/
+def spectrumSample [LE K] [DecidableLE K] [Zero K] [Add K] [Sub K] [Mul K] [Div K] [NatCast K]
+    (grid : List (K × K)) (su : Gen.WUnit) (w : K) (wu : Gen.WUnit) : K :=
+  interpLin (grid.map fun p => (p.1 * Gen.waveTo su wu, p.2)) w
 
 /-- `qe_asarray(qe, wave, waveunit)`: `none` models the failed `assert qe.size == wave.size` -/
-def QE.asArray : QE K → (nw : Nat) → Option (Nat → K)
+def QE.asArray [LE K] [DecidableLE K] [Zero K] [Add K] [Sub K] [Mul K] [Div K] [NatCast K] : QE K → (nw : Nat) → Option (Nat → K)
   | .scalar q, _ => some fun _ => q
   | .vector size v, nw => if size = nw then some v else none
   | .spectrum s, _ => some s
+  | .spectrumObj grid su wave wu, _ => some fun l => spectrumSample grid su (wave l) wu
 
 /-! ## Bayer mosaic -/
 
 inductive Colour where
   | R | G | B
 deriving DecidableEq, Repr, Inhabited
+
+/-- one letter of a Bayer string, after `upper()`; anything but R, G, B is foreign -/
+def colourOfChar (c : Char) : Option Colour :=
+  match c.toUpper with
+  | 'R' => some .R
+  | 'G' => some .G
+  | 'B' => some .B
+  | _ => none
+
+/-- `format_bayer_string`: upper-case, only the letters R G B, length a perfect square `d²`, reshaped **row-major** to `d × d`
+(`pattern a b` = letter `a·d + b`). `none` = ValueError. -/
+def formatBayer (s : String) : Option (Nat × (Int → Int → Colour)) :=
+  let cs := s.toList.map colourOfChar
+  if cs.any Option.isNone then none
+  else match (List.range (cs.length + 1)).find? (fun d => d * d == cs.length) with
+    | none => none
+    | some d => some (d, fun a b => (cs[(a * d + b).toNat]?).join.getD .R)
 
 /-- `np.where(bayer_pattern == c, 1, 0)` -/
 def kernel [Zero K] [One K] (pattern : Int → Int → Colour) (c : Colour) : Int → Int → K :=
@@ -75,6 +109,18 @@ def mosaic (kern : Img K) (R C os : Int) : Img K :=
   let nrow := R / os
   let ncol := C / os
   repeat1 (repeat0 (tile kern (nrow / kern.s0) (ncol / kern.s1)) os) os
+
+/-- NumPy broadcasting of one axis: equal lengths, or one of them 1 -/
+def bcast (a b : Int) : Option Int := if a = b then some a else if a = 1 then some b else if b = 1 then some a else none
+
+/-- shape of `einsum(img, qe) * mosaic` for an image of shape `(R, C)`: `none` = broadcast error (ValueError). For image sizes that
+are multiples of `d·os` this is `(R, C)`; a one-row or one-column image that is *not* a multiple is **broadcast against an empty
+mosaic** and yields an empty array instead of an error (behaviour of the code, outside the property's quantifier; reported) -/
+def bayerShape (R C d os : Int) : Option (Int × Int) :=
+  let m := mosaic (K := Int) { s0 := d, s1 := d, get := fun _ _ => 0 } R C os
+  match bcast R m.s0, bcast C m.s1 with
+  | some r, some c => some (r, c)
+  | _, _ => none
 
 /-- one colour channel: `einsum(img, qe_c) * mosaic_c`; `none` = NumPy broadcast error (mosaic shape ≠ image shape) -/
 def bayerChannel [Add K] [Mul K] [Zero K] [One K] (nw : Nat) (R C : Int) (img : Nat → Int → Int → K) (qe : Nat → K)
